@@ -72,6 +72,10 @@ impl Cut {
     }
 }
 
+/// CPU seconds one deadline trial may burn on its thread before the hang monitor ends the run: the
+/// trials search at most a few hundred thousand nodes (well under a second of CPU).
+const HANG_CPU_LIMIT_S: u64 = 25;
+
 fn set_cut(s: &mut Searcher, c: Option<Cut>) {
     let t = s.verif_timer();
     t.node_limit = None;
@@ -197,6 +201,13 @@ fn run_trial(which: &str, plan: &Plan, cuts: &[Cut], later_depth: u8, st: &mut S
         probes.push(Board::new(&h.to_fen()));
     }
     let case = || trial_json(plan, cuts, later_depth);
+    let _guard = crate::report::guard_case(
+        HANG_CPU_LIMIT_S,
+        which == "C07",
+        format!("C07:no-return:{}:{}:{}", plan.p.to_fen(), plan.d, cuts.iter().map(|c| c.show()).collect::<Vec<_>>().join("+")),
+        format!("search of {} to depth {} with the deadline at {}", plan.p.to_fen(), plan.d, cuts.iter().map(|c| c.show()).collect::<Vec<_>>().join(" then ")),
+        case(),
+    );
     let mut s = Searcher::new();
     push_history(&mut s, &plan.hist);
     let before = history_view(&s, &probes);
@@ -411,13 +422,13 @@ pub fn spec_for(which: &str, replay: bool) -> Spec<'static> {
     if which == "C06" {
         Spec {
             level: "fault_enumeration",
-            rule: "a case is (position with recorded earlier game, depth d in 2..3 [thorough: also 4 on few-men positions], interruption point(s), depth D of the later search). The interruption point is a deterministic deadline: after L nodes for EVERY L in 1..total when the complete search has <= max_points nodes (otherwise all iteration boundaries +-2 and a stratified sample), or at the n-th deadline poll (sampled), or two successive interruptions. After the interruption(s) the same engine instance runs a completed search to depth D (the iteration that was in flight, and d); its value class must equal the reference minimax value and its move must attain it; the history record (length and draw answers for the root, its successors and the recorded positions) must be unchanged by the interruption. Distinct by (position, d, cuts, D); non-trivial when at least one search was really interrupted (deadline before the end of the complete search)",
+            rule: "a case is (position with recorded earlier game, depth d in 2..3 [thorough: also 4 on few-men positions], interruption point(s), depth D of the later search). The interruption point is a deterministic deadline: after L nodes for EVERY L in 1..total when the complete search has <= max_points nodes (otherwise all iteration boundaries +-2 and a stratified sample), or at the n-th deadline poll (sampled), or two successive interruptions. After the interruption(s) the same engine instance runs a completed search to depth D (the iteration that was in flight, and d); its value class must equal the reference minimax value and its move must attain it; the history record (length and draw answers for the root, its successors and the recorded positions) must be unchanged by the interruption. Deep part: searches of 4..9 iterations (up to a few hundred thousand nodes) interrupted at every iteration boundary plus small offsets, at stratified node counts, at polls and twice in a row; only the history record is judged there (no reference value at that depth). Distinct by (position, d, cuts, D); non-trivial when at least one search was really interrupted (deadline before the end of the complete search)",
             assumptions: vec![
                 "the reference rules implementation is correct (perft self-test at every run)".into(),
                 "the node/poll deadline hook stops the search exactly as an expired wall clock does: both are answered by SearchTimer::should_stop, the only place the engine asks about its deadline".into(),
                 "positions whose reference tree or quiescence exceeds the node budget are skipped and counted".into(),
             ],
-            required: if replay { vec![] } else { vec!["interrupted_searches", "later_searches_judged", "history_comparisons", "interrupted_in_iteration_1", "interrupted_in_iteration_2", "interrupted_in_iteration_3", "poll_deadline_trials", "double_interruption_trials", "positions_enumerated_exhaustively"] },
+            required: if replay { vec![] } else { vec!["interrupted_searches", "later_searches_judged", "history_comparisons", "interrupted_in_iteration_1", "interrupted_in_iteration_2", "interrupted_in_iteration_3", "poll_deadline_trials", "double_interruption_trials", "positions_enumerated_exhaustively", "deep_history_interrupted_searches", "deep_history_interrupted_in_iteration_5_or_later"] },
             exhaustive: false,
             extra: vec![],
         }
@@ -429,7 +440,7 @@ pub fn spec_for(which: &str, replay: bool) -> Spec<'static> {
                 "5000 nodes / 500 ms are the monitor's reading of 'a small bounded amount of further work' (the unchanged engine overshoots by at most one node); a legitimate poll-every-few-thousand-nodes design is deliberately not accused".into(),
                 "CPU time of a single-threaded process never exceeds its wall time, so CPU time above the bound is a sound witness of a wall-clock overrun whatever the machine load".into(),
             ],
-            required: if replay { vec![] } else { vec!["interrupted_searches", "explosive_quiescence_trials", "deep_middlegame_trials", "wall_clock_trials", "wall_clock_trials_on_an_engine_that_searched_before", "blackbox_go_movetime", "blackbox_short_go_after_a_long_search"] },
+            required: if replay { vec![] } else { vec!["interrupted_searches", "explosive_quiescence_trials", "deep_middlegame_trials", "wall_clock_trials", "wall_clock_trials_on_an_engine_that_searched_before", "blackbox_go_movetime", "blackbox_short_go_after_a_long_search", "wall_clock_trials_on_sparse_endgames", "blackbox_go_movetime_on_sparse_endgames"] },
             exhaustive: false,
             extra: vec![],
         }
@@ -437,6 +448,38 @@ pub fn spec_for(which: &str, replay: bool) -> Spec<'static> {
 }
 
 fn replay_case(which: &str, c: &J, st: &mut Stats) {
+    if c.str_of("kind") == "deep_history" {
+        if let Ok(p) = Pos::from_fen(&c.str_of("fen")) {
+            let hist: Vec<Pos> = c.get("history").and_then(|h| h.as_arr()).map(|a| a.iter().filter_map(|x| x.as_str().and_then(|f| Pos::from_fen(f).ok())).collect()).unwrap_or_default();
+            let cuts: Vec<Cut> = c.get("cuts").and_then(|h| h.as_arr()).map(|a| a.iter().map(Cut::from_json).collect()).unwrap_or_default();
+            let d = c.int_of("depth") as u8;
+            let b = eng::board_from_pos(&p);
+            let mut bounds = vec![];
+            for k in 1..=d {
+                if let Ok(n) = engine_call(|| {
+                    let mut s = Searcher::new();
+                    s.verif_timer().hard_cap = Some(50_000_000);
+                    s.find_best_move(&b, k, None);
+                    s.verif_nodes()
+                }) {
+                    bounds.push(n);
+                }
+            }
+            if bounds.is_empty() {
+                bounds.push(1_000_000);
+            }
+            let legal = p.legal_moves();
+            let mut probes: Vec<Board> = legal.iter().take(6).map(|m| Board::new(&p.make(m).to_fen())).collect();
+            probes.push(eng::board_from_pos(&p));
+            for h in hist.iter().take(6) {
+                probes.push(Board::new(&h.to_fen()));
+            }
+            deep_history_trial(&p, &hist, d, &cuts, &bounds, &probes, c, st);
+        } else {
+            st.inconclusive.push("replay: bad fen".into());
+        }
+        return;
+    }
     if c.str_of("kind") == "blackbox" || c.str_of("kind") == "big" || c.str_of("kind") == "wall" || c.str_of("kind") == "wall_reused" {
         replay_other(which, c, st);
         return;
@@ -580,6 +623,8 @@ pub fn run(ctx: &Ctx) -> i32 {
     }
     // ---- extra parts
     if which == "C06" {
+        total.merge(c06_deep_history(ctx));
+        say!("deep-search history part done at {:.1}s", ctx.start.elapsed().as_secs_f64());
         total.merge(c06_depth4(ctx));
         say!("depth-4 part done at {:.1}s", ctx.start.elapsed().as_secs_f64());
         total.merge(c06_blackbox(ctx));
@@ -591,6 +636,141 @@ pub fn run(ctx: &Ctx) -> i32 {
         total.merge(c07_blackbox(ctx));
     }
     finalize(ctx, spec_for(which, false), total)
+}
+
+
+// ------------------------------------------------------- C06: deep searches, history record only
+
+/// Interruptions of DEEP searches (iterations 4..8, up to a few hundred thousand nodes): no
+/// reference value exists at that depth, so only the second half of the property is judged — the
+/// game-history record (length and draw answers) after the interrupted search must be exactly what
+/// it was before. Deadlines: every iteration boundary plus small offsets (the first moments of an
+/// iteration, where per-iteration set-up such as aspiration windows runs), stratified node counts,
+/// deadline polls, and two interruptions in a row.
+fn c06_deep_history(ctx: &Ctx) -> Stats {
+    let n_pos = ctx.budget(32, 400);
+    let budget_nodes: u64 = if ctx.quick() { 120_000 } else { 400_000 };
+    parallel(ctx.workers, |w| {
+        let mut st = Stats::new();
+        let mut rng = Rng::new(ctx.seed, 6500 + w as u64);
+        for i in 0..(n_pos / ctx.workers as u64 + 1) {
+            if i >= 1 && ctx.past(0.93) {
+                break;
+            }
+            let (p, hist) = pos_with_history(&mut rng, i % 2 == 1);
+            let b = eng::board_from_pos(&p);
+            let legal = p.legal_moves();
+            // node counts of complete searches per depth on fresh engines (deterministic)
+            let mut bounds: Vec<u64> = vec![];
+            for k in 1..=9u8 {
+                let r = engine_call(|| {
+                    let mut s = Searcher::new();
+                    s.verif_timer().node_limit = Some(budget_nodes);
+                    s.find_best_move(&b, k, None);
+                    (s.verif_nodes(), s.verif_timer().expired_at.get().is_some())
+                });
+                match r {
+                    Ok((n, false)) => bounds.push(n),
+                    _ => break,
+                }
+            }
+            if bounds.len() < 4 {
+                st.bump("deep_history_positions_skipped_too_large");
+                continue;
+            }
+            let d = bounds.len() as u8; // deepest iteration that completes inside the node budget
+            let total = *bounds.last().unwrap();
+            st.bump("deep_history_positions");
+            st.maxi("max_depth_of_deep_history_searches", d as u64);
+            let mut cuts: Vec<Vec<Cut>> = vec![];
+            for bd in bounds.iter() {
+                for off in [0u64, 1, 2, 3, 5, 8, 13, 21, 34, 55] {
+                    if bd + off < total {
+                        cuts.push(vec![Cut::Node(bd + off)]);
+                    }
+                }
+            }
+            for _ in 0..12 {
+                cuts.push(vec![Cut::Node(rng.range(1, total as i64) as u64)]);
+            }
+            for _ in 0..4 {
+                cuts.push(vec![Cut::Poll(rng.range(1, (total * 2) as i64) as u64)]);
+            }
+            for _ in 0..4 {
+                cuts.push(vec![Cut::Node(rng.range(1, total as i64) as u64), Cut::Node(rng.range(1, total as i64) as u64)]);
+            }
+            let mut probes: Vec<Board> = legal.iter().take(6).map(|m| Board::new(&p.make(m).to_fen())).collect();
+            probes.push(eng::board_from_pos(&p));
+            for h in hist.iter().take(6) {
+                probes.push(Board::new(&h.to_fen()));
+            }
+            for cs in cuts.iter() {
+                let case = J::obj(vec![
+                    ("kind", J::s("deep_history")),
+                    ("fen", J::s(p.to_fen())),
+                    ("history", J::arr_s(hist.iter().map(|h| h.to_fen()))),
+                    ("depth", J::i(d as i64)),
+                    ("cuts", J::Arr(cs.iter().map(|c| c.json()).collect())),
+                ]);
+                deep_history_trial(&p, &hist, d, cs, &bounds, &probes, &case, &mut st);
+            }
+        }
+        st
+    })
+}
+
+fn deep_history_trial(p: &Pos, hist: &[Pos], d: u8, cs: &[Cut], bounds: &[u64], probes: &[Board], case: &J, st: &mut Stats) {
+    let b = eng::board_from_pos(p);
+    let shown = cs.iter().map(|c| c.show()).collect::<Vec<_>>().join(" then ");
+    let _guard = crate::report::guard_case(HANG_CPU_LIMIT_S * 2, false, String::new(), format!("deep search of {} (depth {}) interrupted at {}", p.to_fen(), d, shown), case.clone());
+    let mut s = Searcher::new();
+    push_history(&mut s, hist);
+    let before = history_view(&s, probes);
+    st.case(hash64(&(p.key(), d, format!("{:?}", cs), 99u8)), true);
+    st.sample_tagged("deep_history", || case.clone());
+    for c in cs.iter() {
+        set_cut(&mut s, Some(*c));
+        s.verif_timer().hard_cap = Some(bounds.last().unwrap() * 4 + 1_000_000);
+        let r = {
+            let s = &mut s;
+            engine_call(|| {
+                s.find_best_move(&b, d, None);
+            })
+        };
+        if let Err(msg) = r {
+            st.violation(format!("C06:panic:{}:{}:{}", p.to_fen(), d, c.show()), format!("deep search of {} to depth {} interrupted at {} panicked: {}", p.to_fen(), d, c.show(), msg), case.clone());
+            return;
+        }
+        if s.verif_timer().expired_at.get().is_some() {
+            st.bump("deep_history_interrupted_searches");
+            if let Cut::Node(l) = c {
+                let k = bounds.iter().position(|x| l < x).map(|i| i + 1).unwrap_or(bounds.len());
+                st.bump(&format!("deep_history_interrupted_in_iteration_{}", k));
+                if k >= 5 {
+                    st.bump("deep_history_interrupted_in_iteration_5_or_later");
+                }
+            }
+        }
+        let after = history_view(&s, probes);
+        st.bump("history_comparisons");
+        if after != before {
+            st.violation(
+                format!("C06:history:{}:{}:{}", p.to_fen(), d, c.show()),
+                format!(
+                    "after a deep search of {} (depth {}) interrupted at {} the game-history record changed: length {} -> {}, draw answers for {} probe positions {}",
+                    p.to_fen(),
+                    d,
+                    c.show(),
+                    before.0,
+                    after.0,
+                    probes.len(),
+                    if before.1 == after.1 { "unchanged" } else { "changed" }
+                ),
+                case.clone(),
+            );
+            return;
+        }
+    }
 }
 
 // ------------------------------------------------------------------------------ C06: depth 4 part
@@ -682,6 +862,13 @@ fn big_case_json(p: &Pos, d: u8, kind: &str, extra: Vec<(&str, J)>) -> J {
 }
 
 fn big_trial(p: &Pos, d: u8, l: u64, tag: &str, st: &mut Stats) {
+    let _guard = crate::report::guard_case(
+        HANG_CPU_LIMIT_S,
+        true,
+        format!("C07:no-return:{}:{}:node {}", p.to_fen(), d, l),
+        format!("search of {} to depth {} with the deadline after {} nodes", p.to_fen(), d, l),
+        big_case_json(p, d, "big", vec![("node_limit", J::i(l as i64))]),
+    );
     let b = eng::board_from_pos(p);
     let mut s = Searcher::new();
     s.verif_timer().node_limit = Some(l);
@@ -771,6 +958,13 @@ fn c07_big(ctx: &Ctx) -> Stats {
 /// Real wall-clock budgets, in-process: the hook records the node count at which the clock ran out
 /// (checked at every node) and the nodes expanded after that.
 fn wall_trial(p: &Pos, budget_us: u64, st: &mut Stats) {
+    let _guard = crate::report::guard_case(
+        HANG_CPU_LIMIT_S,
+        true,
+        format!("C07:no-return-wall:{}:{}", p.to_fen(), budget_us),
+        format!("search of {} with a wall-clock budget of {} us", p.to_fen(), budget_us),
+        big_case_json(p, 64, "wall", vec![("budget_us", J::i(budget_us as i64))]),
+    );
     let b = eng::board_from_pos(p);
     let mut s = Searcher::new();
     s.verif_timer().overrun_cap = Some(OVERSHOOT_BOUND);
@@ -815,6 +1009,13 @@ fn wall_trial(p: &Pos, budget_us: u64, st: &mut Stats) {
 /// (so any per-engine poll schedule or counter has run far ahead), then a search with a tiny
 /// budget whose overshoot is measured in nodes by the hook.
 fn wall_trial_reused(p: &Pos, first_ms: u64, budget_us: u64, st: &mut Stats) {
+    let _guard = crate::report::guard_case(
+        HANG_CPU_LIMIT_S,
+        true,
+        format!("C07:no-return-wall-reused:{}:{}:{}", p.to_fen(), first_ms, budget_us),
+        format!("search of {} with a wall-clock budget of {} ms followed by one of {} us on the same engine", p.to_fen(), first_ms, budget_us),
+        big_case_json(p, 64, "wall_reused", vec![("first_search_ms", J::i(first_ms as i64)), ("budget_us", J::i(budget_us as i64))]),
+    );
     let b = eng::board_from_pos(p);
     let mut s = Searcher::new();
     let r0 = {
@@ -874,7 +1075,19 @@ fn c07_wall(ctx: &Ctx) -> Stats {
             if i >= 4 && ctx.past(0.95) {
                 break;
             }
-            let p = if i % 2 == 0 { gen::g_explode(&mut rng) } else { gen::g_game_pos(&mut rng) };
+            // promotion races, middlegames and sparse endgames (3..6 men: dozens of iterations fit
+            // into a few milliseconds, so whatever runs between iterations is exercised too)
+            let p = match i % 3 {
+                0 => gen::g_explode(&mut rng),
+                1 => gen::g_game_pos(&mut rng),
+                _ => {
+                    st.bump("wall_clock_trials_on_sparse_endgames");
+                    {
+                        let men = 3 + rng.below(4) as i64;
+                        gen::g_small(&mut rng, men)
+                    }
+                }
+            };
             if p.legal_moves().is_empty() {
                 continue;
             }
@@ -940,7 +1153,17 @@ fn c07_blackbox(ctx: &Ctx) -> Stats {
             if i >= 2 && ctx.out_of_time() {
                 break;
             }
-            let p = if i % 2 == 0 { gen::g_explode(&mut rng) } else { gen::g_game_pos(&mut rng) };
+            let p = match i % 3 {
+                0 => gen::g_explode(&mut rng),
+                1 => gen::g_game_pos(&mut rng),
+                _ => {
+                    st.bump("blackbox_go_movetime_on_sparse_endgames");
+                    {
+                        let men = 3 + rng.below(4) as i64;
+                        gen::g_small(&mut rng, men)
+                    }
+                }
+            };
             if p.legal_moves().is_empty() {
                 continue;
             }
